@@ -33,12 +33,18 @@ INSTS = {
 }
 
 
+def optional_inst(name):
+    """instantiations that rely on selecting the library's size-field storage for a small N through detail::select_storage<64>
+    (a harness-side specialisation of a library-internal template): capability-probed, see DESIGN.md section 5"""
+    return INSTS[name][2] == FIELD
+
+
 def build(name, san="asan", opt="-O1"):
     ct, n, st, thr, large = INSTS[name][:5]
     defs = ['CFG_NAME="%s"' % name, "CFG_CT=%s" % ct, "CFG_N=%d" % n, "CFG_ST=%s" % st, "CFG_THROW=%d" % thr, "CFG_LARGE=%d" % large]
     if len(INSTS[name]) > 5:
         defs.append("CFG_CH2=%s" % INSTS[name][5])
-    return vlib.compile_cxx(SRC, "c01-" + name.replace("/", "_"), std="c++14", opt=opt, san=san, defines=defs)
+    return vlib.compile_cxx(SRC, "c01-" + name.replace("/", "_"), std="c++14", opt=opt, san=san, defines=defs, expect_fail=optional_inst(name))
 
 
 def plan(tier, which):
@@ -77,6 +83,14 @@ def owner(sig):
 def run(ctx, which):
     pl = plan(ctx.tier, which)
     bins = vlib.parallel([(lambda p=p: build(p[0], p[2], p[3])) for p in pl])
+    dropped = [p[0] for b, p in zip(bins, pl) if b is None]
+    if dropped:
+        # the size-field layout is then only covered by the library's own selection (capacity >= 256)
+        ctx.note("capability probe: instantiation(s) %s no longer compile (detail::select_storage<64> specialisation); the size-field layout is covered by F256* only in this run" % ", ".join(dropped))
+        if not any(p[0].startswith("F256") for p in pl):
+            raise vlib.HarnessError("size-field storage instantiations do not compile and no F256 instantiation is planned: %s" % dropped)
+        keep = [(b, p) for b, p in zip(bins, pl) if b is not None]
+        bins, pl = [k[0] for k in keep], [k[1] for k in keep]
     dl = str(int(max(60, ctx.time_left() - 40)))
     sub = vlib.Ctx(ctx.pid, ctx.tier, ctx.level, ctx.seed)
     jobs = [(lambda b=b, p=p: sub.run_harness(b, p[1] + ["--deadline", dl], tag=p[0])) for b, p in zip(bins, pl)]
